@@ -810,11 +810,43 @@ func (e *Exec) fprintf(withFormat bool, args []Value) Value {
 			if ai >= len(vals) {
 				e.unsupported("fmt: missing operand")
 			}
-			switch format[i] {
-			case 'c', 's', 'd', 'v', 'x':
-				emit(format[i], vals[ai])
-			default:
-				e.unsupported("fmt verb %" + string(format[i]))
+			// flags, width, precision (only for %s)
+			minus := false
+			width, prec := -1, -1
+			for i < len(format) && format[i] == '-' {
+				minus = true
+				i++
+			}
+			for i < len(format) && format[i] >= '0' && format[i] <= '9' {
+				if width < 0 {
+					width = 0
+				}
+				width = width*10 + int(format[i]-'0')
+				i++
+			}
+			if i < len(format) && format[i] == '.' {
+				i++
+				prec = 0
+				for i < len(format) && format[i] >= '0' && format[i] <= '9' {
+					prec = prec*10 + int(format[i]-'0')
+					i++
+				}
+			}
+			if i >= len(format) {
+				e.unsupported("fmt: truncated verb")
+			}
+			if minus || width >= 0 || prec >= 0 {
+				if format[i] != 's' {
+					e.unsupported("fmt: width/precision on %" + string(format[i]))
+				}
+				out = e.fmtString(vals[ai], minus, width, prec, out)
+			} else {
+				switch format[i] {
+				case 'c', 's', 'd', 'v', 'x':
+					emit(format[i], vals[ai])
+				default:
+					e.unsupported("fmt verb %" + string(format[i]))
+				}
 			}
 			ai++
 		}
@@ -831,4 +863,93 @@ func (e *Exec) fprintf(withFormat bool, args []Value) Value {
 	o := e.newObj(&BytesV{arr: arr, n: -1}, "fmt buffer")
 	e.callMethod(w, "Write", []Value{&SliceV{obj: o, off: e.c64(0), len: n, cap: n}})
 	return TupleV{n, &IfaceV{}}
+}
+
+// runeLen forks on the UTF-8 shape of the rune starting at byte i of a string
+// of n bytes (Go's decoding: an invalid or truncated sequence is one rune of
+// one byte).
+func (e *Exec) runeLen(arr *Term, i, n int) int {
+	at := func(k int) *Term { return e.st.Select(arr, e.c64(int64(k))) }
+	c8 := func(v uint64) *Term { return e.st.Const(8, v) }
+	in := func(t *Term, lo, hi uint64) *Term {
+		return e.st.And(e.st.Cmp(OpUle, c8(lo), t), e.st.Cmp(OpUle, t, c8(hi)))
+	}
+	b0 := at(i)
+	if e.Branch(e.st.Cmp(OpUlt, b0, c8(0x80))) {
+		return 1
+	}
+	if i+1 < n {
+		if e.Branch(e.st.And(in(b0, 0xc2, 0xdf), in(at(i+1), 0x80, 0xbf))) {
+			return 2
+		}
+	}
+	if i+2 < n {
+		b1 := at(i + 1)
+		second := e.st.Or(e.st.Or(e.st.And(e.st.Eq(b0, c8(0xe0)), in(b1, 0xa0, 0xbf)), e.st.And(in(b0, 0xe1, 0xec), in(b1, 0x80, 0xbf))),
+			e.st.Or(e.st.And(e.st.Eq(b0, c8(0xed)), in(b1, 0x80, 0x9f)), e.st.And(in(b0, 0xee, 0xef), in(b1, 0x80, 0xbf))))
+		if e.Branch(e.st.And(second, in(at(i+2), 0x80, 0xbf))) {
+			return 3
+		}
+	}
+	if i+3 < n {
+		b1 := at(i + 1)
+		second := e.st.Or(e.st.And(e.st.Eq(b0, c8(0xf0)), in(b1, 0x90, 0xbf)),
+			e.st.Or(e.st.And(in(b0, 0xf1, 0xf3), in(b1, 0x80, 0xbf)), e.st.And(e.st.Eq(b0, c8(0xf4)), in(b1, 0x80, 0x8f))))
+		if e.Branch(e.st.And(second, e.st.And(in(at(i+2), 0x80, 0xbf), in(at(i+3), 0x80, 0xbf)))) {
+			return 4
+		}
+	}
+	return 1
+}
+
+// fmtString: %[-][width][.prec]s — precision and width count runes.
+func (e *Exec) fmtString(v Value, minus bool, width, prec int, out []*Term) []*Term {
+	iv, _ := v.(*IfaceV)
+	if iv == nil {
+		e.unsupported("fmt: operand")
+	}
+	var arr, n *Term
+	switch x := iv.v.(type) {
+	case *StringV:
+		arr, n = e.stringArr(x)
+	case *SliceV:
+		if !isByteSlice(iv.t) {
+			e.unsupported("fmt %s on non-byte slice")
+		}
+		bb := e.sliceBytes(x)
+		if x.off.op != OpConst || x.off.val != 0 {
+			e.unsupported("fmt %s on offset slice")
+		}
+		arr, n = bb.arr, x.len
+	default:
+		e.unsupported("fmt %s operand kind")
+	}
+	k := int(e.constInt(n))
+	// walk runes
+	pos, runes := 0, 0
+	for pos < k && (prec < 0 || runes < prec) {
+		pos += e.runeLen(arr, pos, k)
+		runes++
+	}
+	var body []*Term
+	for i := 0; i < pos; i++ {
+		body = append(body, e.st.Select(arr, e.c64(int64(i))))
+	}
+	pad := 0
+	if width > runes {
+		pad = width - runes
+	}
+	sp := e.st.Const(8, ' ')
+	if !minus {
+		for i := 0; i < pad; i++ {
+			out = append(out, sp)
+		}
+	}
+	out = append(out, body...)
+	if minus {
+		for i := 0; i < pad; i++ {
+			out = append(out, sp)
+		}
+	}
+	return out
 }
